@@ -1110,6 +1110,118 @@ func (e *Env) noExplicitFailure() {
 		}
 	}
 	c.Ok("no-explicit-failure", "metric packages", "", fmt.Sprintf("%d functions of v2/metric and v3/metric: no panic, integer division by a variable, or direct recursion", n))
+	e.noNilFuncCalls()
+}
+
+// noNilFuncCalls: a call through a function value panics when the value is nil (the element of a table for a key
+// that is not there, a field of a row that leaves it out). Every entry point of the metric packages from which a
+// call through a function value can be reached is expanded (helpers, function tables, literal rows in place); a
+// call whose function is still not a known function on some path is reported: nil on that path, or not decided.
+func (e *Env) noNilFuncCalls() {
+	c := e.C
+	hasDyn := map[*ssa.Function]bool{}
+	isDyn := func(in ssa.Instruction) bool {
+		call, ok := in.(ssa.CallInstruction)
+		if !ok || call.Common().IsInvoke() || call.Common().StaticCallee() != nil {
+			return false
+		}
+		_, isBuiltin := call.Common().Value.(*ssa.Builtin)
+		return !isBuiltin
+	}
+	libFn := func(fn *ssa.Function) bool {
+		pk := ir.FuncPackage(fn)
+		return pk != nil && (isMetricPkg(pk.Pkg.Path()) || load.IsInternal(pk.Pkg.Path()))
+	}
+	for _, fn := range e.F.Effects().All {
+		if !libFn(fn) {
+			continue
+		}
+		for _, b := range fn.Blocks {
+			for _, in := range b.Instrs {
+				if isDyn(in) {
+					hasDyn[fn] = true
+				}
+			}
+		}
+	}
+	if len(hasDyn) == 0 {
+		c.Ok("no-explicit-failure", "calls through function values", "", "none in the metric packages")
+		return
+	}
+	// entry points: exported functions and methods (and the per-token decoders, which the rules never expand)
+	// that reach such a call through the library's own static calls
+	var reach func(fn *ssa.Function, seen map[*ssa.Function]bool) bool
+	reach = func(fn *ssa.Function, seen map[*ssa.Function]bool) bool {
+		if fn == nil || seen[fn] {
+			return false
+		}
+		seen[fn] = true
+		if hasDyn[fn] {
+			return true
+		}
+		if o := fn.Origin(); o != nil && o != fn && reach(o, seen) {
+			return true
+		}
+		for _, b := range fn.Blocks {
+			for _, in := range b.Instrs {
+				if call, ok := in.(ssa.CallInstruction); ok {
+					if callee := call.Common().StaticCallee(); callee != nil && libFn(callee) && reach(callee, seen) {
+						return true
+					}
+				}
+			}
+		}
+		return false
+	}
+	decodeOnes := map[types.Object]bool{}
+	for _, v := range []*spec.Version{&spec.V3, &spec.V2} {
+		if ls, err := e.F.Levels(v); err == nil {
+			for _, l := range ls {
+				if l.DecodeOne != nil {
+					decodeOnes[l.DecodeOne] = true
+				}
+			}
+		}
+	}
+	for _, fn := range e.F.Effects().All {
+		if fn.Pkg == nil || !isMetricPkg(fn.Pkg.Pkg.Path()) || fn.Synthetic != "" || fn.Parent() != nil || !e.reachableFromAPI()[fn] {
+			continue
+		}
+		obj, _ := fn.Object().(*types.Func)
+		if obj == nil || !(obj.Exported() || decodeOnes[obj]) {
+			continue
+		}
+		if !reach(fn, map[*ssa.Function]bool{}) {
+			continue
+		}
+		who := load.FuncName(obj)
+		leaves, err := ir.Leaves(fn, ir.LeafOptions{Forward: true, Effects: true, MaxPaths: 20000, Inline: e.inlineHelpers()})
+		if err != nil {
+			leaves, err = ir.Leaves(fn, ir.LeafOptions{Forward: true, Effects: true, MaxPaths: 20000, Inline: e.inlineHelpers(), CutLoops: true})
+		}
+		if err != nil {
+			c.Undecided("no-explicit-failure", who+" calls through function values", e.P.Pos(fn.Pos()), err.Error())
+			continue
+		}
+		bad := 0
+		for _, lf := range leaves {
+			for _, ef := range lf.Effects {
+				if ef.Kind != "call" || ef.Val == nil || ef.Val.Op != "dyncall" || len(ef.Val.Args) == 0 {
+					continue
+				}
+				bad++
+				f := ef.Val.Args[0]
+				if f.Op == ir.OConst && f.C == nil {
+					c.Fail("no-explicit-failure", who+" call of a nil function", e.P.Pos(ef.Pos), "on a path the function value called is nil (an element that is not in the table): run-time panic | path: "+clip(lf.String()))
+				} else {
+					c.Undecided("no-explicit-failure", who+" call through a function value", e.P.Pos(ef.Pos), "the function value is not a known function on this path (it may be nil): "+clip(f.Pretty()))
+				}
+			}
+		}
+		if bad == 0 {
+			c.Ok("no-explicit-failure", who+" calls through function values", e.P.Pos(fn.Pos()), "every call through a function value reaches a known function on every path")
+		}
+	}
 }
 
 // ---------------------------------------------------------------------------
